@@ -66,7 +66,7 @@ EXTRA = [
     ("uni", UNI, None, ""), ("void", ["void"], None, ""),
     ("pptr", ["ptr", ["ptr", U8]], None, ""), ("ptr[2]", arr(["ptr", U8], 2), None, ""), ("charptr", ["ptr", CHAR], None, ""),
     ("u32[0]", arr(U32, 0), None, ""), ("u64[1]", arr(U64, 1), None, ""), ("u48[2]", arr(U48, 2), None, ""),
-    ("F[2]", arr(F8, 2), None, ""), ("ES[2]", arr(E8S, 2), None, ""), ("float[2]", arr(["float", "f"], 2), None, ""),
+    ("F[2]", arr(F8, 2), None, ""), ("E24[2]", arr(E24, 2), None, ""), ("F32[2]", arr(F32, 2), None, ""), ("ES[2]", arr(E8S, 2), None, ""), ("float[2]", arr(["float", "f"], 2), None, ""),
     ("inner[2][2]", arr(arr(INNER, 2), 2), None, ""), ("char[2][2]", arr(arr(CHAR, 2), 2), None, ""),
     ("uleb[2]", arr(["leb", False], 2), None, ""),
     ("u8:8", U8, 8, ""), ("u8:1", U8, 1, ""), ("u16:16", U16, 16, ""), ("u32:24", U32, 24, ""), ("u32:8", U32, 8, ""),
